@@ -103,6 +103,57 @@ def splitVScale (xmb zb oneb cb invb nb : Nat) : List Node := [
   ⟨.sub, [0, 20], 0⟩ ]        -- 21: xl
 def splitVScaleOuts : List Nat := [20, 21]
 
+/-- fpa.mul_dekker(x, y, scale=True, fix_overflow=False) — the default options -/
+def mulDekkerScale (xmb zb oneb cb invb nb : Nat) : List Node := [
+  ⟨.input, [], 1⟩,            -- 0: y
+  ⟨.input, [], 0⟩,            -- 1: x
+  ⟨.mul, [0, 1], 0⟩,          -- 2: y*x
+  ⟨.abs, [1], 0⟩,             -- 3: |x|
+  ⟨.const, [], xmb⟩,          -- 4: x_max
+  ⟨.gt, [3, 4], 0⟩,           -- 5
+  ⟨.const, [], zb⟩,           -- 6: 0
+  ⟨.lt, [1, 6], 0⟩,           -- 7: x < 0
+  ⟨.neg, [4], 0⟩,             -- 8
+  ⟨.select, [7, 8, 4], 0⟩,    -- 9
+  ⟨.const, [], oneb⟩,         -- 10: 1
+  ⟨.lt, [3, 10], 0⟩,          -- 11: |x| < 1
+  ⟨.const, [], cb⟩,           -- 12: C
+  ⟨.const, [], invb⟩,         -- 13: invN
+  ⟨.mul, [13, 1], 0⟩,         -- 14
+  ⟨.select, [11, 1, 14], 0⟩,  -- 15: x_n
+  ⟨.mul, [12, 15], 0⟩,        -- 16
+  ⟨.sub, [16, 15], 0⟩,        -- 17
+  ⟨.sub, [16, 17], 0⟩,        -- 18: gd_x
+  ⟨.const, [], nb⟩,           -- 19: N
+  ⟨.mul, [18, 19], 0⟩,        -- 20
+  ⟨.select, [11, 18, 20], 0⟩, -- 21
+  ⟨.select, [5, 9, 21], 0⟩,   -- 22: xh
+  ⟨.abs, [0], 0⟩,             -- 23: |y|
+  ⟨.gt, [23, 4], 0⟩,          -- 24
+  ⟨.lt, [0, 6], 0⟩,           -- 25
+  ⟨.select, [25, 8, 4], 0⟩,   -- 26
+  ⟨.lt, [23, 10], 0⟩,         -- 27
+  ⟨.mul, [0, 13], 0⟩,         -- 28: y*invN
+  ⟨.select, [27, 0, 28], 0⟩,  -- 29: y_n
+  ⟨.mul, [12, 29], 0⟩,        -- 30
+  ⟨.sub, [30, 29], 0⟩,        -- 31
+  ⟨.sub, [30, 31], 0⟩,        -- 32: gd_y
+  ⟨.mul, [19, 32], 0⟩,        -- 33: N*gd_y
+  ⟨.select, [27, 32, 33], 0⟩, -- 34
+  ⟨.select, [24, 26, 34], 0⟩, -- 35: yh
+  ⟨.sub, [0, 35], 0⟩,         -- 36: yl
+  ⟨.mul, [22, 36], 0⟩,        -- 37: xh*yl
+  ⟨.mul, [35, 22], 0⟩,        -- 38: yh*xh
+  ⟨.neg, [2], 0⟩,             -- 39
+  ⟨.add, [38, 39], 0⟩,        -- 40: t1
+  ⟨.add, [37, 40], 0⟩,        -- 41: t2
+  ⟨.sub, [1, 22], 0⟩,         -- 42: xl
+  ⟨.mul, [35, 42], 0⟩,        -- 43: yh*xl
+  ⟨.add, [41, 43], 0⟩,        -- 44: t3
+  ⟨.mul, [36, 42], 0⟩,        -- 45: yl*xl
+  ⟨.add, [44, 45], 0⟩ ]       -- 46
+def mulDekkerScaleOuts : List Nat := [2, 46]
+
 /-- fpa.mul_dekker(x, y, scale=False, fix_overflow=True):  overflow = |xh*yh| > largest;
 xyh = select(overflow, x*y, xyh); xyl = select(overflow, 0, xyl) -/
 def mulDekkerFix (cb lb zb : Nat) : List Node := [
